@@ -209,6 +209,9 @@ def check(ctx):
         ctx.check(bool(s.calls_named(lambda n: lib.tail(n, 1) == "syscall_with_validation")), "C17.a", "syscall:delegates", "%s:%d" % (s.file, s.line), "", "syscall does not delegate to syscall_with_validation")
     except mir.AnchorLost as e:
         ctx.fail("C17.a", "anchor-lost:syscall", "", str(e))
+    import writers
+    nwr = writers.check(ctx, "C17.f", ["SpawnedSystem", "IdMappedSystems"])
+    ctx.notes.append("who-writes table: %d system-cache fields with pinned writers checked" % nwr)
     _cache_pairing(ctx, prog)
     _lifecycle(ctx, prog)
     _sysname(ctx, prog)
